@@ -8,13 +8,17 @@
 
 use crate::ast::{self, Env, Ty};
 use crate::val::{parse_decimal, Val};
-use serde::de::{self, DeserializeSeed, Deserializer, EnumAccess, IgnoredAny, MapAccess, SeqAccess, VariantAccess, Visitor};
+use serde::de::{self, DeserializeSeed, Deserializer, EnumAccess, MapAccess, SeqAccess, VariantAccess, Visitor};
 use std::cell::Cell;
 use std::fmt;
 
 pub const MASKED: &str = "<masked>";
 /// both paths of a comparison hit the same cap, so it cannot create a disagreement
 pub const CAPTURE_ELEM_CAP: usize = 1_000_000;
+thread_local! {
+	/// how many callbacks the ignoring visitor takes before it gives up (C04 sets it from its work bound)
+	pub static IGNORE_CALLBACK_CAP: Cell<u64> = const { Cell::new(50_000_000) };
+}
 
 pub struct CapCtx<'a> {
 	pub env: &'a Env,
@@ -431,7 +435,7 @@ impl<'de, 'a> Visitor<'de> for RecV<'a> {
 					None => return Err(de::Error::custom("CAPTURE-MISMATCH: record ended early")),
 				}
 				if self.ctx.is_masked() {
-					map.next_value::<IgnoredAny>()?;
+					map.next_value_seed(IgnoreSeed { callbacks: &self.ctx.callbacks, cap: IGNORE_CALLBACK_CAP.with(|c| c.get()) })?;
 					out.push(Val::Str(MASKED.to_owned()));
 				} else {
 					out.push(map.next_value_seed(Capture { ty: fty, ctx: self.ctx })?);
@@ -713,10 +717,74 @@ impl<'de, 'a> Visitor<'de> for HashSeed<'a> {
 }
 
 /// `IgnoredAny` as a seed
-pub struct IgnoreSeed;
-impl<'de> DeserializeSeed<'de> for IgnoreSeed {
+/// `deserialize_ignored_any` with a visitor that behaves like serde's `IgnoredAny` (allocation-free, accepts anything,
+/// drains sequences and maps) but counts every callback and gives up with a CAPTURE-LIMIT error after `cap` of them,
+/// so that work dictated by a number in the input is observed as a count instead of as a hang.
+#[derive(Clone, Copy)]
+pub struct IgnoreSeed<'a> {
+	pub callbacks: &'a Cell<u64>,
+	pub cap: u64,
+}
+impl<'a> IgnoreSeed<'a> {
+	fn tick<E: de::Error>(&self) -> Result<(), E> {
+		let n = self.callbacks.get() + 1;
+		self.callbacks.set(n);
+		if n > self.cap {
+			Err(E::custom("CAPTURE-LIMIT: more callbacks than the harness is willing to take while ignoring"))
+		} else {
+			Ok(())
+		}
+	}
+}
+impl<'de, 'a> DeserializeSeed<'de> for IgnoreSeed<'a> {
 	type Value = ();
 	fn deserialize<D: Deserializer<'de>>(self, d: D) -> Result<(), D::Error> {
-		d.deserialize_ignored_any(IgnoredAny).map(|_| ())
+		d.deserialize_ignored_any(self)
+	}
+}
+macro_rules! ignore_scalar {
+	($($f:ident: $t:ty),*) => {$(
+		fn $f<E: de::Error>(self, _: $t) -> Result<(), E> { self.tick() }
+	)*};
+}
+impl<'de, 'a> Visitor<'de> for IgnoreSeed<'a> {
+	type Value = ();
+	fn expecting(&self, f: &mut fmt::Formatter) -> fmt::Result {
+		f.write_str("anything at all")
+	}
+	ignore_scalar!(visit_bool: bool, visit_i64: i64, visit_i128: i128, visit_u64: u64, visit_u128: u128, visit_f64: f64, visit_str: &str, visit_bytes: &[u8]);
+	fn visit_none<E: de::Error>(self) -> Result<(), E> {
+		self.tick()
+	}
+	fn visit_unit<E: de::Error>(self) -> Result<(), E> {
+		self.tick()
+	}
+	fn visit_some<D: Deserializer<'de>>(self, d: D) -> Result<(), D::Error> {
+		self.tick()?;
+		self.deserialize(d)
+	}
+	fn visit_newtype_struct<D: Deserializer<'de>>(self, d: D) -> Result<(), D::Error> {
+		self.tick()?;
+		self.deserialize(d)
+	}
+	fn visit_seq<A: SeqAccess<'de>>(self, mut seq: A) -> Result<(), A::Error> {
+		self.tick()?;
+		while let Some(()) = seq.next_element_seed(self)? {
+			self.tick()?;
+		}
+		Ok(())
+	}
+	fn visit_map<A: MapAccess<'de>>(self, mut map: A) -> Result<(), A::Error> {
+		self.tick()?;
+		while let Some(()) = map.next_key_seed(self)? {
+			self.tick()?;
+			map.next_value_seed(self)?;
+		}
+		Ok(())
+	}
+	fn visit_enum<A: de::EnumAccess<'de>>(self, data: A) -> Result<(), A::Error> {
+		use serde::de::VariantAccess;
+		self.tick()?;
+		data.variant_seed(self)?.1.newtype_variant_seed(self)
 	}
 }
